@@ -229,6 +229,8 @@ def run(ctx: Context, rep) -> None:
            construct="asyncstdlib.chain.from_iterable(asyncstdlib.map(...))",
            message="async shards are chained in path order")
 
+    from sa.rules.c09 import check_ordered
+    check_ordered(ctx, rep, "C03.pool-order")
     c04.check_dump(ctx, rep, "C03.group")
     rep.rule(
         "C03.group",
